@@ -633,16 +633,20 @@ def plan(ctx, check):
     core = dict(special=(), foreign=(), prls=("none",), maxtog=2, maxtick=1, maxenv=0)
     xmac = dict(special=(3,), foreign=(), prls=("none",), maxtog=0, maxtick=1, maxenv=0, clients="ClientsAll")   # any client id from any MAC
     low = dict(special=(15, 9), foreign=(), prls=("none",), maxtog=2, maxtick=0, maxenv=0)                         # netfilter = lower half of the LAN
-    solo = dict(ncid=1, special=(6, 3), foreign=(), prls=("none",), maxtog=3, maxtick=1, maxenv=2, restart=True)  # one client, deep: retransmissions,
-    # capture toggles between any two messages, restart / reload / changed configuration
+    # one client, deep: retransmissions with both xids, a capture toggle between any two messages (solo_a),
+    # restart / reload (same session) / changed configuration between any two messages (solo_b, solo)
+    solo_a = dict(ncid=1, special=(6, 3), foreign=(), prls=("none",), maxtog=1, maxtick=0, maxenv=0)
+    solo_b = dict(ncid=1, special=(6, 3), foreign=(), prls=("none",), maxtog=1, maxtick=1, maxenv=1, restart=True)
+    solo = dict(ncid=1, special=(6, 3), foreign=(), prls=("none",), maxtog=3, maxtick=1, maxenv=2, restart=True)
     p = []
     if q:
-        p.append(dict(kind="mc", label="mc-wide-secondary-d4", shape=0, mode="secondary", depth=4, kw=wide, every=16, fail_every=8))
-        p.append(dict(kind="mc", label="mc-wide-primary-d4", shape=0, mode="primary", depth=4, kw=wide, every=16, fail_every=8))
-        p.append(dict(kind="mc", label="mc-core-nice-d5", shape=0, mode="nice", depth=5, kw=core, every=16, fail_every=8))
+        p.append(dict(kind="mc", label="mc-wide-secondary-d4", shape=0, mode="secondary", depth=4, kw=wide, every=24, fail_every=12))
+        p.append(dict(kind="mc", label="mc-wide-primary-d4", shape=0, mode="primary", depth=4, kw=wide, every=24, fail_every=12))
+        p.append(dict(kind="mc", label="mc-core-nice-d5", shape=0, mode="nice", depth=5, kw=core, every=24, fail_every=12))
         p.append(dict(kind="mc", label="mc-xmac-secondary-d3", shape=0, mode="secondary", depth=3, kw=dict(xmac, special=(3, 7), maxtog=1), every=2, fail_every=1))
         p.append(dict(kind="mc", label="mc-lower-nice-d4", shape=2, mode="nice", depth=4, kw=low, every=12, fail_every=6))
-        p.append(dict(kind="mc", label="mc-solo-nice-d7", shape=0, mode="nice", depth=7, kw=solo, every=16, fail_every=8))
+        p.append(dict(kind="mc", label="mc-solo-a-nice-d6", shape=0, mode="nice", depth=6, kw=solo_a, every=12, fail_every=6))
+        p.append(dict(kind="mc", label="mc-solo-b-primary-d5", shape=0, mode="primary", depth=5, kw=solo_b, every=12, fail_every=6))
         p.append(dict(kind="sim", label="sim-full-primary-d10", shape=0, mode="primary", depth=10, num=300, kw=dict(full, ncid=3)))
         p.append(dict(kind="rand", n=90, length=30))
         p.append(dict(kind="life", n=240, length=30))
@@ -656,8 +660,9 @@ def plan(ctx, check):
         p.append(dict(kind="mc", label="mc-3cl-primary-d4", shape=0, mode="primary", depth=4, kw=dict(wide, ncid=3), every=20, fail_every=10))
         p.append(dict(kind="mc", label="mc-xmac-secondary-d5", shape=0, mode="secondary", depth=5, kw=xmac, every=40, fail_every=20))
         p.append(dict(kind="mc", label="mc-lower-nice-d5", shape=2, mode="nice", depth=5, kw=low, every=40, fail_every=20))
-        p.append(dict(kind="mc", label="mc-solo-nice-d8", shape=0, mode="nice", depth=8, kw=solo, every=60, fail_every=30))
-        p.append(dict(kind="mc", label="mc-solo-primary-d7", shape=0, mode="primary", depth=7, kw=solo, every=30, fail_every=15))
+        p.append(dict(kind="mc", label="mc-solo-nice-d7", shape=0, mode="nice", depth=7, kw=solo, every=120, fail_every=60))
+        p.append(dict(kind="mc", label="mc-solo-b-primary-d6", shape=0, mode="primary", depth=6, kw=solo_b, every=30, fail_every=15))
+        p.append(dict(kind="mc", label="mc-solo-a-secondary-d7", shape=0, mode="secondary", depth=7, kw=solo_a, every=30, fail_every=15))
         for mode in MODES:
             p.append(dict(kind="sim", label="sim-full-%s-d14" % mode, shape=0, mode=mode, depth=14, num=800, kw=dict(full, ncid=3)))
         p.append(dict(kind="rand", n=1200, length=40))
